@@ -26,6 +26,7 @@ type PropCfg struct {
 	Opts       func(t *rapid.T) lab.NodeOpts
 	Gen        func(t *rapid.T) *Scenario // overrides GenScenario(Profile)
 	PerCase    func(rt *rapid.T, s *Scenario, ev *Evidence) []Finding // overrides the default single-world run
+	Alias      map[string]string // see World.Alias
 }
 
 // ReplayFile is what a replay contains: the case, not the seed.
@@ -76,6 +77,9 @@ func RunCase(cfg *PropCfg, s *Scenario, opts lab.NodeOpts, ev *Evidence, trace b
 	}
 	defer w.Close()
 	w.TraceOn = trace
+	if len(cfg.Alias) > 0 {
+		w.AliasTo, w.Alias = cfg.ID, cfg.Alias
+	}
 	w.Run()
 	for _, f := range w.Relevant() {
 		if f.Prop != cfg.ID {
